@@ -109,20 +109,37 @@ class Exemptions:
         return int(m.group(1)) if m else None
 
     def _params_naive(self):
-        """datetime(**params) in the absolute parser is built from a dict literal without tzinfo"""
+        """datetime(**params) in the absolute parser is built from a mapping without a tzinfo entry: every way the function spells the keys
+        (dict literal, dict(k=..), dict(base, k=..), name[k] = .., name.update(k=..)) is collected; a key that is not a constant, or no
+        recognisable mapping at all, is 'cannot decide' (AnalysisError), not 'aware'"""
+        from ..core.repo import AnalysisError as _AE
         ok = True
         for key in ("dateparser.parser:_parser._get_datetime_obj_params",
                     "dateparser.calendars:non_gregorian_parser._get_datetime_obj_params"):
             f = self.ix.funcs.get(key)
             if f is None:
-                return False
-            lits = [n for n in ast.walk(f.node) if isinstance(n, ast.Dict)]
-            if not lits:
-                return False
-            for d in lits:
-                for k in d.keys:
-                    if not isinstance(k, ast.Constant) or k.value == "tzinfo":
-                        ok = False
+                raise _AE("exemption", "%s not found" % key)
+            keys, found = set(), 0
+            for n in ast.walk(f.node):
+                if isinstance(n, ast.Dict):
+                    found += 1
+                    for k in n.keys:
+                        if k is None:
+                            continue            # {**base, ...}: base's keys are collected where base is built
+                        if not isinstance(k, ast.Constant):
+                            raise _AE("exemption", "%s: a key of the datetime parameters is computed (%s)" % (f.qual, ast.unparse(k)[:40]))
+                        keys.add(k.value)
+                elif isinstance(n, ast.Call) and (ast.unparse(n.func) == "dict" or (isinstance(n.func, ast.Attribute) and n.func.attr == "update")):
+                    found += 1
+                    for k in n.keywords:
+                        if k.arg is not None:
+                            keys.add(k.arg)
+                elif isinstance(n, ast.Assign) and isinstance(n.targets[0], ast.Subscript) and isinstance(n.targets[0].slice, ast.Constant):
+                    keys.add(n.targets[0].slice.value)
+            if not found:
+                raise _AE("exemption", "%s: cannot see how the datetime parameters are built" % f.qual)
+            if "tzinfo" in keys:
+                ok = False
         return ok
 
     def _tz_arg_from_settings(self, site):
